@@ -10,6 +10,7 @@ from . import extract
 from .symexec import ClassRef, Env, PathCut, RaiseSig, ReturnSig, exc_class
 from .values import (
     IntSeqSort,
+    SAbsIter,
     SBool,
     SClosure,
     SDec,
@@ -612,6 +613,8 @@ class OpsMixin:
             return n, lambda i: self.wrap_str(z3.SubString(it.e, self.to_z3(i, "int"), 1), "str")
         if isinstance(it, SSymRange):
             return it.n, lambda i: self.binop("Add", it.start, i)
+        if isinstance(it, SAbsIter):
+            return it.n, it.get
         raise Unsupported(f"symbolic iteration over {it!r}")
 
     def nth(self, seq, i):
